@@ -105,6 +105,22 @@ def c11_7(facts, res, e, rule="C11-7"):
                 if target is None or len(list(walk(n))) < len(list(walk(target))):
                     target = n
                     e = g
+    chain_form = False
+
+    def has_quant(x):
+        return any(m.get("k") == "MethodCall" and m["m"] in ("any", "all") for m in walk(x)) or \
+            any(m.get("k") == "Path" and m.get("res") == "Local" and str(m.get("ty")) == "bool" for m in walk(x))
+    if target is None or not has_quant(target["cond"]):
+        # iterator form: `.filter(|attr| !items.iter().any(..)).map(|attr| new_from_declaration(..))`
+        for g in facts.family(e):
+            if not any(m.get("k") == "Call" and str(m["f"].get("path", "")).endswith("new_from_declaration") for m in walk(g["body"])):
+                continue
+            for n in walk(g["body"]):
+                if n.get("k") == "MethodCall" and n["m"] in ("filter", "take_while", "skip_while") and n.get("args") and n["args"][0].get("k") == "Closure" \
+                        and any(m.get("k") == "MethodCall" and m["m"] in ("any", "all") for m in walk(n["args"][0]["body"])):
+                    target = {"cond": n["args"][0]["body"], "then": None, "ln": n.get("ln")}
+                    e = g
+                    chain_form = True
     if target is None:
         raise BrokenCheck("C11-7: no conditional guards XmlAttribute::new_from_declaration in XmlElement::attributes")
     lets = {m["pat"]["lid"]: m["init"] for m in walk(e["body"])
@@ -126,6 +142,30 @@ def c11_7(facts, res, e, rule="C11-7"):
     if quant is None:
         raise BrokenCheck("C11-7: the written-attribute test is not an any()/all() over the written attributes; shape not recognised")
     st["instances"] += 1
+    # "the first declaration is binding" (XML 1.0 3.3): the collection the test looks at is the one the defaults are added to,
+    # inside the loop over the definitions - a test that only sees the written attributes adds one default per definition
+    st["instances"] += 1
+    searched = guards._root_local(quant.get("recv"))[1]
+    grows = False
+    for lp in walk(e["body"]):
+        if lp.get("k") != "Loop":
+            continue
+        inside = list(walk(lp))
+        if not any(m is quant for m in inside):
+            continue
+        for m in inside:
+            if m.get("k") == "MethodCall" and m["m"] in ("push", "insert", "push_back") and guards._root_local(m.get("recv"))[1] == searched and \
+                    any(c.get("k") == "Call" and str(c["f"].get("path", "")).endswith("new_from_declaration") for c in walk(m.get("args", []))):
+                grows = True
+    dedup = any(m.get("k") == "MethodCall" and m["m"] in ("dedup_by", "dedup_by_key", "retain") or
+                (m.get("k") == "MethodCall" and m["m"] == "insert" and "Set<" in str(m.get("recvty", ""))) for m in walk(e["body"]))
+    okg = grows or dedup
+    res.oblige(1, okg)
+    if not okg:
+        res.add(Finding(rule, "attributes|first-definition", "the test whether an attribute is already present looks at a collection that does "
+                        "not receive the defaulted attributes as they are added%s: a second definition of the same attribute in the "
+                        "attribute-list declaration yields a second attribute (XML 1.0 3.3: the first declaration is binding)"
+                        % (" (filter/map chain collected separately)" if chain_form else ""), e["file"], target.get("ln") or quant.get("ln"), {}))
     clo = quant["args"][0]
     plid = clo["params"][0].get("lid") if clo.get("params") else None
     kind, x = _name_equality(clo["body"], plid)
@@ -145,13 +185,66 @@ def c11_7(facts, res, e, rule="C11-7"):
                         "loses its defaults or gets a duplicate" % ("!" * (negs % 2), quant["m"], "!" if x else ""), e["file"], quant.get("ln"), {}))
 
 
+def expansion_roots(facts):
+    """entry points of the entity expansion used for attribute values: `expand_entity` and, when present, its wrapper"""
+    out = [facts.fn("xml_info::expand_entity")["id"]]
+    w = facts.fn_opt("xml_info::attr_value_from_name")
+    if w is not None:
+        out.append(w["id"])
+    return out
+
+
+def normalize_flags(facts, body, target, idx, depth=0, seen=None):
+    """The argument expressions handed to parameter `idx` of `target` by every call reachable from `body` through functions of
+    the crate (bounded depth).  -> list of (argument node, calling function path)"""
+    seen = seen if seen is not None else set()
+    out = []
+    for m in walk(body):
+        fid = None
+        if m.get("k") == "Call" and m["f"].get("k") == "Path":
+            fid = m["f"].get("rid") or m["f"].get("id")
+            args = m.get("args", [])
+        elif m.get("k") == "MethodCall":
+            fid = m.get("rid") or m.get("id")
+            args = [m.get("recv")] + m.get("args", [])
+        if fid is None or fid not in facts.fns:
+            continue
+        g = facts.fns[fid]
+        if g["id"] == target["id"]:
+            if idx < len(args):
+                out.append((args[idx], None))
+        elif depth < 3 and g["crate"] == target["crate"] and "body" in g and fid not in seen and not g.get("derived"):
+            seen.add(fid)
+            for a, via in normalize_flags(facts, g["body"], target, idx, depth + 1, seen):
+                out.append((a, via or g["path"]))
+    return out
+
+
 def c11_1(facts, res, rule="C11-1"):
     # ---- C11-1
     st = res.rule(rule, instances=0)
     f = facts.fn("xml_info::<XmlAttribute as Attribute>::normalized_value")
     a = arms_by_variant(f, "XmlAttributeValue", facts)
-    want = {"Char": ({"character_code"}, {"normalize_ws"}), "Entity": ({"attr_value_from_name"}, {"normalize_ws"}),
-            "Text": ({"normalize_ws"}, {"attr_value_from_name"})}
+    g = facts.fn("xml_info::expand_entity")
+    bools = [i for i, p_ in enumerate(g.get("params", [])) if str(p_.get("ty")) == "bool"]
+    if len(bools) != 1:
+        raise BrokenCheck("C11-1: expand_entity has %d bool parameters (one expected: normalise white space)" % len(bools))
+    want = {"Char": ({"character_code"}, {"normalize_ws"}), "Entity": (set(), {"normalize_ws"}),
+            "Text": ({"normalize_ws"}, {"attr_value_from_name", "expand_entity"})}
+    # the Entity arm expands the reference with normalisation switched on *unconditionally*: every call path from the arm to
+    # expand_entity passes the literal `true` (a flag computed from the reference's parent item is false for the pieces of a
+    # declared default, whose parent is the document type declaration)
+    if "Entity" in a:
+        st["instances"] += 1
+        flags = normalize_flags(facts, a["Entity"]["body"], g, bools[0])
+        okf = bool(flags) and all(x.get("k") == "Lit" and x.get("v") is True for x, _ in flags)
+        res.oblige(1, okf)
+        if not okf:
+            via = [v_ for x, v_ in flags if not (x.get("k") == "Lit" and x.get("v") is True)]
+            res.add(Finding(rule, "normalized_value|Entity|flag", "normalized_value: the Entity arm %s; an entity reference in an attribute "
+                            "value is always expanded with white-space normalisation (XML 1.0 3.3.3), whatever item the reference hangs under"
+                            % ("reaches expand_entity through %s with a normalisation flag computed at run time" % (via[0] or "a direct call")
+                               if flags else "does not reach expand_entity"), f["file"], a["Entity"].get("ln") or f["line"], {}))
     for v, (must, must_not) in want.items():
         st["instances"] += 1
         ns = names(facts, a[v], f) if v in a else None
@@ -160,7 +253,6 @@ def c11_1(facts, res, rule="C11-1"):
         if not ok:
             res.add(Finding(rule, "normalized_value|" + v, "normalized_value: the %s arm calls %s; expected %s and not %s"
                             % (v, sorted(ns or []), sorted(must), sorted(must_not)), f["file"], f["line"], {}))
-    g = facts.fn("xml_info::expand_entity")
     b = arms_by_variant(g, "XmlEntityValue", facts)
     # replacement text (XML 1.0 4.5) contains the characters denoted by character references of the entity literal, so
     # they are normalised like literal text: 3.3.3's example `<!ENTITY d "&#xD;">  a="&d;"` gives one space
@@ -388,7 +480,7 @@ def run(facts, tier):
         res.add(Finding("C11-5", "declaration_att_list|first-only", "only the first <!ATTLIST> of an element is consulted (Iterator::find): declarations of the same "
                         "element in a second attribute-list declaration are ignored", dal["file"], dal["line"], {}))
     # ---- C11-6
-    reach, _ = facts.reachable([facts.fn("xml_info::attr_value_from_name")["id"]])
+    reach, _ = facts.reachable(expansion_roots(facts))
     c03.r03_3(facts, res, "C11-6", reach, {})
     guards.rule(facts, res, "C11-6g", [facts.fns[x] for x in reach if x in facts.fns], want=("G1", "G2", "G3", "G4", "G5"), floor=1)
     # ---- C11-7: "is the attribute written?" = no written attribute has the declaration's qualified name
